@@ -76,7 +76,6 @@ QUICK_PROGRAMS = [
     # a scraper still READING what collect() handed out while info() runs: world I = Info with two labels, pre-set in the
     # set-up phase; colr = collect, keep the result, render it (pre-emption points inside the rendering)
     ('I', 'info:A|colr', 1, False),
-    ('I', 'colr|info:A,info:B', 1, False),
 ]
 DEEP = {'linc:0:1|linc2:0:2', 'linc:0:1,linc:1:1|linc2:0:2,linc2:1:2'}
 THOROUGH_PROGRAMS = [
@@ -107,6 +106,7 @@ THOROUGH_PROGRAMS = [
     ('cv', 'inc:0:1|set:0:0|inc:0:2', 2, True),
     ('Gv', 'inc:1:1|set:1:10|inc:1:2', 2, True),
     ('Gv', 'inc:1:1,set:1:3|set:1:10,inc:1:2', 2, True),
+    ('I', 'colr|info:A,info:B', 2, False),
     ('I', 'info:A,info:B|colr,colr', 2, False),
     ('I', 'colr|info:A|colr', 2, False),
 ]
